@@ -407,6 +407,10 @@ def run(ctx: Context, rep) -> None:
     # nothing read from the dataset's files / the environment is memoised
     from sa.rules import shared as _shm
     _shm.check_no_memo(ctx, rep, "C07.memo")
+    # the native reader's unit of work: one shard per task, opened (not
+    # decoded) in the worker, with the caller's thread count (same check as
+    # C14.rust)
+    rustrules.check_pulls(ctx, rep, "C07.rust-map")
 
 _LP = "src/sedpack/io/itertools/lazy_pool.py"
 _TRY = '''            try:
